@@ -21,6 +21,8 @@ type NestedOpt struct {
 	Delegate    string // authorised | unlisted | foreign   (who offers the level-2 layout)
 	ParentRules string // match | violated   (rules of the root's step b against the summary)
 	Expired     string // expiry used by sub-expired
+	SingleStep  bool   // the deepest layout has one step only (it consumes x and produces y)
+	Sibling     bool   // the root has a third step "c", delegated by another functionary (ed3) to a sublayout of its own
 }
 
 type Nested struct {
@@ -43,8 +45,14 @@ func BuildNested(base string, o NestedOpt) *Nested {
 	owner := Key("p256")
 	n.Keys = map[string]intoto.Key{owner.ID: owner.Pub}
 	n.Root = n.level(base, 1, n.LinkDir, owner, "")
-	n.WantM = xArt(1)
+	n.WantM = Arts()
+	if o.Depth == 1 && o.SingleStep {
+		n.WantM = xArt(0)
+	}
 	n.WantP = yArt(o.Depth)
+	if o.Sibling {
+		n.WantP = Arts("w", H(0x71))
+	}
 	return n
 }
 
@@ -75,7 +83,10 @@ func (n *Nested) level(base string, l int, dir string, signer *K, stepNameForSum
 	if defect == "link-unauthorised" {
 		aSigner = foreign
 	}
-	if defect != "link-missing" {
+	single := o.SingleStep && l == o.Depth
+	if single {
+		// the only step "b" consumes x_{l-1} directly; link defects are applied to its link below
+	} else if defect != "link-missing" {
 		p := DumpLink(dir, "a", aSigner.ID, MustWrap(la, o.DSSE, aSigner.Full))
 		if defect == "link-tampered" {
 			EditJSONFile(p, func(doc map[string]any) {
@@ -88,8 +99,17 @@ func (n *Nested) level(base string, l int, dir string, signer *K, stepNameForSum
 			})
 		}
 	}
-	// step b: consumes x_l, produces y (of the deepest level)
-	sb := Step("b", 1, []string{fb.ID}, [][]string{{"MATCH", "x", "WITH", "PRODUCTS", "FROM", "a"}, {"DISALLOW", "*"}}, [][]string{{"ALLOW", "y"}, {"DISALLOW", "*"}})
+	// step b: consumes x_l, produces y (of the deepest level); REQUIRE makes an empty summary visible
+	sb := Step("b", 1, []string{fb.ID}, [][]string{{"REQUIRE", "x"}, {"MATCH", "x", "WITH", "PRODUCTS", "FROM", "a"}, {"DISALLOW", "*"}}, [][]string{{"REQUIRE", "y"}, {"ALLOW", "y"}, {"DISALLOW", "*"}})
+	if single {
+		sb.ExpectedMaterials = [][]string{{"REQUIRE", "x"}, {"ALLOW", "x"}, {"DISALLOW", "*"}}
+		if defect == "threshold-unmet" {
+			sb.Threshold = 2
+		}
+		if defect == "rule-violated" {
+			sb.ExpectedProducts = [][]string{{"DISALLOW", "*"}}
+		}
+	}
 	if l == 1 && o.ParentRules == "violated" {
 		sb.ExpectedProducts = [][]string{{"DISALLOW", "y"}}
 	}
@@ -110,13 +130,54 @@ func (n *Nested) level(base string, l int, dir string, signer *K, stepNameForSum
 		if err := sub.Dump(filepath.Join(dir, LinkName("b", deleg.ID))); err != nil {
 			panic(err)
 		}
+	} else if single {
+		bSigner := fb
+		if defect == "link-unauthorised" {
+			bSigner = foreign
+		}
+		if defect != "link-missing" {
+			p := DumpLink(dir, "b", bSigner.ID, MustWrap(Link("b", xArt(l-1), yArt(l), "make-y"), o.DSSE, bSigner.Full))
+			if defect == "link-tampered" {
+				EditJSONFile(p, func(doc map[string]any) {
+					ch := func(pl map[string]any) { pl["products"].(map[string]any)["y"].(map[string]any)["sha256"] = H(0xee) }
+					if o.DSSE {
+						EditDSSEPayload(doc, ch)
+					} else {
+						ch(doc["signed"].(map[string]any))
+					}
+				})
+			}
+		}
 	} else {
 		DumpLink(dir, "b", fb.ID, MustWrap(Link("b", xArt(l), yArt(l), "make-y"), o.DSSE, fb.Full))
 	}
 	marker := filepath.Join(base, fmt.Sprintf("marker-level-%d", l))
 	n.Markers = append(n.Markers, marker)
 	insp := Inspection(fmt.Sprintf("insp%d", l), []string{"sh", "-c", "touch " + marker}, [][]string{{"ALLOW", "*"}}, [][]string{{"ALLOW", "*"}})
-	lay := Layout(FarFuture, []intoto.Step{sa, sb}, []intoto.Inspection{insp}, keys)
+	steps := []intoto.Step{sa, sb}
+	if single {
+		steps = []intoto.Step{sb}
+	}
+	if l == 1 && o.Sibling {
+		// a second delegation, offered by another functionary (ed3), with a sublayout of its own
+		sc := Step("c", 1, []string{unl.ID}, [][]string{{"DISALLOW", "*"}}, [][]string{{"REQUIRE", "w"}, {"ALLOW", "w"}, {"DISALLOW", "*"}})
+		steps = append(steps, sc)
+		cDir := filepath.Join(dir, fmt.Sprintf("c.%.8s", unl.ID))
+		os.MkdirAll(cDir, 0o755)
+		z, w := Arts("z", H(0x70)), Arts("w", H(0x71))
+		sp := Step("p", 1, []string{fa.ID}, [][]string{{"DISALLOW", "*"}}, [][]string{{"ALLOW", "z"}, {"DISALLOW", "*"}})
+		sq := Step("q", 1, []string{fb.ID}, [][]string{{"MATCH", "z", "WITH", "PRODUCTS", "FROM", "p"}, {"DISALLOW", "*"}}, [][]string{{"ALLOW", "w"}, {"DISALLOW", "*"}})
+		DumpLink(cDir, "p", fa.ID, MustWrap(Link("p", Arts(), z, "make-z"), o.DSSE, fa.Full))
+		DumpLink(cDir, "q", fb.ID, MustWrap(Link("q", z, w, "make-w"), o.DSSE, fb.Full))
+		cm := filepath.Join(base, "marker-level-9")
+		n.Markers = append(n.Markers, cm)
+		ci := Inspection("inspc", []string{"sh", "-c", "touch " + cm}, [][]string{{"ALLOW", "*"}}, [][]string{{"ALLOW", "*"}})
+		cl := Layout(FarFuture, []intoto.Step{sp, sq}, []intoto.Inspection{ci}, map[string]intoto.Key{fa.ID: fa.Pub, fb.ID: fb.Pub})
+		if err := MustWrap(cl, o.DSSE, unl.Full).Dump(filepath.Join(dir, LinkName("c", unl.ID))); err != nil {
+			panic(err)
+		}
+	}
+	lay := Layout(FarFuture, steps, []intoto.Inspection{insp}, keys)
 	if defect == "sub-expired" {
 		lay.Expires = o.Expired
 	}
